@@ -6,13 +6,12 @@ import Bnum.Lemmas.Cmp
   Lemmas for C06: the digit list as a bit pattern (`testBit_U`), digit-wise logic, counts,
   bit access, powers of two, bit/byte reversal.
 -/
-namespace Bnum
+namespace Bnum.Bits
 
 /-- all digits `< 2^w` (the part of `WF` that does not mention the length) -/
 def Digits (w : Nat) (x : List Nat) : Prop := ∀ d ∈ x, d < B w
 
-theorem WF.digits {w n : Nat} {x : List Nat} (h : WF w n x) : Digits w x := h.2
-theorem Digits.wf {w : Nat} {x : List Nat} (h : Digits w x) : WF w x.length x := ⟨rfl, h⟩
+theorem Digits_wf {w : Nat} {x : List Nat} (h : Digits w x) : WF w x.length x := ⟨rfl, h⟩
 theorem Digits_nil (w : Nat) : Digits w [] := by intro d hd; simp at hd
 theorem Digits_cons {w d : Nat} {ds : List Nat} : Digits w (d :: ds) ↔ d < B w ∧ Digits w ds := by
   simp [Digits]
@@ -72,24 +71,23 @@ theorem xor_two_pow_mul_add {w a b u v : Nat} (ha : a < 2 ^ w) (hb : b < 2 ^ w) 
     Nat.testBit_two_pow_mul_add _ (Nat.xor_lt_two_pow ha hb)]
   split <;> simp [Nat.testBit_xor]
 
-namespace UI
 
 theorem bitand_spec {w : Nat} : ∀ (n : Nat) (a b : List Nat), WF w n a → WF w n b →
-    WF w n (bitand a b) ∧ U w (bitand a b) = U w a &&& U w b := by
+    WF w n (UI.bitand a b) ∧ U w (UI.bitand a b) = U w a &&& U w b := by
   intro n
   induction n with
   | zero =>
     intro a b ha hb
     have := ha.1; simp at this; subst this
     have := hb.1; simp at this; subst this
-    simp [bitand, WF_nil]
+    simp [UI.bitand, WF_nil]
   | succ n ih =>
     intro a b ha hb
     match a, b, ha, hb with
     | d :: as, e :: bs, ha, hb =>
       rw [WF_cons] at ha hb
       obtain ⟨h1, h2⟩ := ih as bs ha.2 hb.2
-      simp only [bitand, U_cons]
+      simp only [UI.bitand, U_cons]
       refine ⟨WF_cons.mpr ⟨Nat.and_lt_two_pow d hb.1, h1⟩, ?_⟩
       rw [h2, B_eq_two_pow, Nat.add_comm d, Nat.add_comm e,
         and_two_pow_mul_add ha.1 hb.1, Nat.add_comm]
@@ -97,21 +95,21 @@ theorem bitand_spec {w : Nat} : ∀ (n : Nat) (a b : List Nat), WF w n a → WF 
     | _ :: _, [], _, hb => exact absurd hb.1 (by simp)
 
 theorem bitor_spec {w : Nat} : ∀ (n : Nat) (a b : List Nat), WF w n a → WF w n b →
-    WF w n (bitor a b) ∧ U w (bitor a b) = U w a ||| U w b := by
+    WF w n (UI.bitor a b) ∧ U w (UI.bitor a b) = U w a ||| U w b := by
   intro n
   induction n with
   | zero =>
     intro a b ha hb
     have := ha.1; simp at this; subst this
     have := hb.1; simp at this; subst this
-    simp [bitor, WF_nil]
+    simp [UI.bitor, WF_nil]
   | succ n ih =>
     intro a b ha hb
     match a, b, ha, hb with
     | d :: as, e :: bs, ha, hb =>
       rw [WF_cons] at ha hb
       obtain ⟨h1, h2⟩ := ih as bs ha.2 hb.2
-      simp only [bitor, U_cons]
+      simp only [UI.bitor, U_cons]
       refine ⟨WF_cons.mpr ⟨Nat.or_lt_two_pow ha.1 hb.1, h1⟩, ?_⟩
       rw [h2, B_eq_two_pow, Nat.add_comm d, Nat.add_comm e,
         or_two_pow_mul_add ha.1 hb.1, Nat.add_comm]
@@ -119,28 +117,27 @@ theorem bitor_spec {w : Nat} : ∀ (n : Nat) (a b : List Nat), WF w n a → WF w
     | _ :: _, [], _, hb => exact absurd hb.1 (by simp)
 
 theorem bitxor_spec {w : Nat} : ∀ (n : Nat) (a b : List Nat), WF w n a → WF w n b →
-    WF w n (bitxor a b) ∧ U w (bitxor a b) = U w a ^^^ U w b := by
+    WF w n (UI.bitxor a b) ∧ U w (UI.bitxor a b) = U w a ^^^ U w b := by
   intro n
   induction n with
   | zero =>
     intro a b ha hb
     have := ha.1; simp at this; subst this
     have := hb.1; simp at this; subst this
-    simp [bitxor, WF_nil]
+    simp [UI.bitxor, WF_nil]
   | succ n ih =>
     intro a b ha hb
     match a, b, ha, hb with
     | d :: as, e :: bs, ha, hb =>
       rw [WF_cons] at ha hb
       obtain ⟨h1, h2⟩ := ih as bs ha.2 hb.2
-      simp only [bitxor, U_cons]
+      simp only [UI.bitxor, U_cons]
       refine ⟨WF_cons.mpr ⟨Nat.xor_lt_two_pow ha.1 hb.1, h1⟩, ?_⟩
       rw [h2, B_eq_two_pow, Nat.add_comm d, Nat.add_comm e,
         xor_two_pow_mul_add ha.1 hb.1, Nat.add_comm]
     | [], _, ha, _ => exact absurd ha.1 (by simp)
     | _ :: _, [], _, hb => exact absurd hb.1 (by simp)
 
-end UI
 
 theorem bnot_spec {w : Nat} : ∀ (n : Nat) (a : List Nat), WF w n a →
     WF w n (bnot w a) ∧ U w (bnot w a) = M w n - 1 - U w a := by
@@ -253,29 +250,28 @@ theorem popcount_eq_one : ∀ (f x : Nat), x < 2 ^ f → (Spec.popcount f x = 1 
         have := h1.mpr ⟨k, by omega⟩
         omega
 
-namespace UI
 
 theorem countOnesLoop_spec {w : Nat} : ∀ (x : List Nat), Digits w x → ∀ acc,
-    countOnesLoop w x acc = acc + Spec.popcount (w * x.length) (U w x)
-  | [], _, acc => by simp [countOnesLoop, Spec.popcount]
+    UI.countOnesLoop w x acc = acc + Spec.popcount (w * x.length) (U w x)
+  | [], _, acc => by simp [UI.countOnesLoop, Spec.popcount]
   | d :: ds, hx, acc => by
     rw [Digits_cons] at hx
-    simp only [countOnesLoop, List.length_cons, U_cons]
+    simp only [UI.countOnesLoop, List.length_cons, U_cons]
     rw [countOnesLoop_spec ds hx.2, Nat.mul_add, Nat.mul_one, Nat.add_comm (w * ds.length) w,
       B_eq_two_pow, popcount_add w _ d _ hx.1, Prim.countOnes, popLoop_eq]
     omega
 
 /-- C06: `count_ones` is the number of set bits among the `w*n` bits of the pattern. -/
 theorem countOnes_spec {w n : Nat} {x : List Nat} (hx : WF w n x) :
-    countOnes w x = Spec.popcount (w * n) (U w x) := by
-  unfold countOnes; rw [countOnesLoop_spec x hx.2, hx.1]; omega
+    UI.countOnes w x = Spec.popcount (w * n) (U w x) := by
+  unfold UI.countOnes; rw [countOnesLoop_spec x hx.2, hx.1]; omega
 
 theorem countZerosLoop_spec {w : Nat} : ∀ (x : List Nat), Digits w x → ∀ acc,
-    countZerosLoop w x acc + Spec.popcount (w * x.length) (U w x) = acc + w * x.length
-  | [], _, acc => by simp [countZerosLoop, Spec.popcount]
+    UI.countZerosLoop w x acc + Spec.popcount (w * x.length) (U w x) = acc + w * x.length
+  | [], _, acc => by simp [UI.countZerosLoop, Spec.popcount]
   | d :: ds, hx, acc => by
     rw [Digits_cons] at hx
-    simp only [countZerosLoop, List.length_cons, U_cons]
+    simp only [UI.countZerosLoop, List.length_cons, U_cons]
     have ih := countZerosLoop_spec ds hx.2 (acc + Prim.countZeros w d)
     have hc := popcount_compl w d hx.1
     rw [Nat.mul_add, Nat.mul_one, Nat.add_comm (w * ds.length) w,
@@ -287,9 +283,200 @@ theorem countZerosLoop_spec {w : Nat} : ∀ (x : List Nat), Digits w x → ∀ a
 
 /-- C06: `count_zeros` is `BITS - count_ones`. -/
 theorem countZeros_spec {w n : Nat} {x : List Nat} (hx : WF w n x) :
-    countZeros w x = w * n - Spec.popcount (w * n) (U w x) := by
+    UI.countZeros w x = w * n - Spec.popcount (w * n) (U w x) := by
   have := countZerosLoop_spec x hx.2 0
-  unfold countZeros; rw [hx.1] at this; omega
+  unfold UI.countZeros; rw [hx.1] at this; omega
 
-end UI
-end Bnum
+/-! ### C. bit length, leading zeros -/
+
+/-- characterisation of the bit length: `bitLen v ≤ k ↔ v < 2^k` -/
+theorem bitLen_le_iff (v k : Nat) : Spec.bitLen v ≤ k ↔ v < 2 ^ k := by
+  unfold Spec.bitLen
+  by_cases hv : v = 0
+  · subst hv; simp
+  · rw [if_neg hv, ← Nat.log2_lt hv]; omega
+
+theorem eq_of_forall_le_iff {a b : Nat} (h : ∀ k, a ≤ k ↔ b ≤ k) : a = b := by
+  have h1 := h a; have h2 := h b; omega
+
+theorem lt_two_pow_bitLen (v : Nat) : v < 2 ^ Spec.bitLen v := (bitLen_le_iff v _).mp (Nat.le_refl _)
+
+theorem two_pow_le_of_bitLen {v : Nat} (hv : v ≠ 0) : 2 ^ (Spec.bitLen v - 1) ≤ v := by
+  by_contra h
+  have := (bitLen_le_iff v (Spec.bitLen v - 1)).mpr (by omega)
+  have h0 : ¬ Spec.bitLen v ≤ 0 := by rw [bitLen_le_iff]; simp; omega
+  omega
+
+theorem bitLen_zero : Spec.bitLen 0 = 0 := by simp [Spec.bitLen]
+theorem bitLen_pos {v : Nat} (hv : v ≠ 0) : 1 ≤ Spec.bitLen v := by
+  have h0 : ¬ Spec.bitLen v ≤ 0 := by rw [bitLen_le_iff]; simp; omega
+  omega
+
+theorem bitLen_half {d : Nat} (hd : d ≠ 0) : Spec.bitLen d = 1 + Spec.bitLen (d / 2) := by
+  have hp := bitLen_pos hd
+  have h : ∀ k, Spec.bitLen (d / 2) ≤ k ↔ Spec.bitLen d ≤ k + 1 := by
+    intro k; rw [bitLen_le_iff, bitLen_le_iff, Nat.pow_succ]; omega
+  have h1 := h (Spec.bitLen (d / 2))
+  have h2 := h (Spec.bitLen d - 1)
+  omega
+
+theorem lenLoop_eq : ∀ (f d : Nat), d < 2 ^ f → Prim.lenLoop f d = Spec.bitLen d
+  | 0, d, hd => by
+    have : d = 0 := by simpa using hd
+    subst this; simp [Prim.lenLoop, bitLen_zero]
+  | f + 1, d, hd => by
+    unfold Prim.lenLoop
+    by_cases h0 : d = 0
+    · subst h0; simp [bitLen_zero]
+    · rw [Nat.pow_succ] at hd
+      simp only [beq_iff_eq, h0, if_false]
+      rw [lenLoop_eq f (d / 2) (by omega), bitLen_half h0]
+
+/-- the bit length of `u + 2^k * d` with `u < 2^k`, `d ≠ 0` -/
+theorem bitLen_add_mul {u k d : Nat} (hu : u < 2 ^ k) (hd : d ≠ 0) :
+    Spec.bitLen (u + 2 ^ k * d) = k + Spec.bitLen d := by
+  apply eq_of_forall_le_iff
+  intro j
+  rw [bitLen_le_iff]
+  by_cases hj : k ≤ j
+  · obtain ⟨i, rfl⟩ := Nat.exists_eq_add_of_le hj
+    have : k + Spec.bitLen d ≤ k + i ↔ Spec.bitLen d ≤ i := by omega
+    rw [this, bitLen_le_iff, Nat.pow_add]
+    constructor
+    · intro h
+      by_contra hc
+      have : 2 ^ k * 2 ^ i ≤ 2 ^ k * d := Nat.mul_le_mul_left _ (by omega)
+      omega
+    · intro h
+      have : 2 ^ k * (d + 1) ≤ 2 ^ k * 2 ^ i := Nat.mul_le_mul_left _ h
+      rw [Nat.mul_add] at this; omega
+  · have h1 : 2 ^ j < 2 ^ k := Nat.pow_lt_pow_right (by decide) (by omega)
+    have h2 : 2 ^ k * 1 ≤ 2 ^ k * d := Nat.mul_le_mul_left _ (by omega)
+    have := bitLen_pos hd
+    constructor
+    · intro h; omega
+    · intro h; omega
+
+theorem leadingZeros_prim {w d : Nat} (hd : d < 2 ^ w) :
+    Prim.leadingZeros w d = w - Spec.bitLen d := by
+  unfold Prim.leadingZeros; rw [lenLoop_eq w d hd]
+
+theorem bitLen_le_of_lt {v k : Nat} (h : v < 2 ^ k) : Spec.bitLen v ≤ k := (bitLen_le_iff v k).mpr h
+
+theorem U_lt' {w : Nat} {x : List Nat} (hx : Digits w x) : U w x < 2 ^ (w * x.length) :=
+  U_lt (Digits_wf hx)
+
+/-- loop invariant of `leading_zeros` over the reversed (most-significant-first) digits -/
+theorem lzLoop_spec {w : Nat} : ∀ (r : List Nat), Digits w r → ∀ z,
+    UI.lzLoop w r z = z + (w * r.length - Spec.bitLen (U w r.reverse))
+  | [], _, z => by simp [UI.lzLoop, bitLen_zero]
+  | d :: rs, hr, z => by
+    rw [Digits_cons] at hr
+    have hrev := Digits_reverse hr.2
+    have hu := U_lt' hrev
+    rw [List.length_reverse] at hu
+    have hd : d < 2 ^ w := hr.1
+    have hbl := bitLen_le_of_lt hu
+    simp only [UI.lzLoop, List.reverse_cons, List.length_cons]
+    rw [Cmp.U_snoc, List.length_reverse, B_eq_two_pow, ← Nat.pow_mul, leadingZeros_prim hd]
+    by_cases h0 : d = 0
+    · subst h0
+      simp only [bne_self_eq_false, Bool.false_eq_true, if_false, Nat.mul_zero, Nat.add_zero]
+      rw [lzLoop_spec rs hr.2, bitLen_zero, Nat.mul_add]; omega
+    · have : (d != 0) = true := by simp [h0]
+      rw [if_pos this, bitLen_add_mul hu h0, Nat.mul_add]
+      have := bitLen_le_of_lt hd
+      omega
+
+/-- C06: `leading_zeros = BITS - bitLen(pattern)` (`BITS` for the zero pattern). -/
+theorem leadingZeros_spec {w n : Nat} {x : List Nat} (hx : WF w n x) :
+    UI.leadingZeros w x = w * n - Spec.bitLen (U w x) := by
+  unfold UI.leadingZeros
+  rw [lzLoop_spec x.reverse (Digits_reverse hx.2)]; simp [hx.1]
+
+theorem leadingZeros_le {w n : Nat} {x : List Nat} (hx : WF w n x) :
+    UI.leadingZeros w x ≤ w * n := by rw [leadingZeros_spec hx]; omega
+
+/-- C06: `bits()` is the bit length of the pattern. -/
+theorem bits_spec {w n : Nat} {x : List Nat} (hx : WF w n x) :
+    UI.bits w x = Spec.bitLen (U w x) := by
+  unfold UI.bits
+  rw [leadingZeros_spec hx, hx.1]
+  have := bitLen_le_of_lt (U_lt hx); omega
+
+/-! ### D. trailing zeros -/
+
+theorem tzLoop_eq : ∀ (f x : Nat), Prim.tzLoop f x = Spec.trailingZeros f x
+  | 0, _ => rfl
+  | f + 1, x => by
+    simp only [Prim.tzLoop, Spec.trailingZeros, tzLoop_eq f, beq_iff_eq]
+
+theorem trailingZeros_zero : ∀ f, Spec.trailingZeros f 0 = f
+  | 0 => rfl
+  | f + 1 => by simp [Spec.trailingZeros, trailingZeros_zero f]; omega
+
+theorem trailingZeros_add : ∀ (w k d u : Nat), d < 2 ^ w →
+    Spec.trailingZeros (w + k) (d + 2 ^ w * u) =
+      if d = 0 then w + Spec.trailingZeros k u else Spec.trailingZeros w d
+  | 0, k, d, u, hd => by
+    have : d = 0 := by simpa using hd
+    subst this; simp
+  | w + 1, k, d, u, hd => by
+    have e : w + 1 + k = (w + k) + 1 := by omega
+    rw [e]
+    simp only [Spec.trailingZeros]
+    rw [two_pow_succ_mul]
+    have h1 : (d + 2 * (2 ^ w * u)) % 2 = d % 2 := by omega
+    have h2 : (d + 2 * (2 ^ w * u)) / 2 = d / 2 + 2 ^ w * u := by omega
+    rw [Nat.pow_succ] at hd
+    rw [h1, h2, trailingZeros_add w k (d / 2) u (by omega)]
+    by_cases hodd : d % 2 = 1
+    · have : d ≠ 0 := by omega
+      simp [hodd, this]
+    · simp only [hodd, if_false]
+      by_cases h0 : d = 0
+      · subst h0; simp; omega
+      · have : d / 2 ≠ 0 := by omega
+        simp [h0, this]
+
+theorem tzLoopU_spec {w : Nat} : ∀ (x : List Nat), Digits w x → ∀ z,
+    UI.tzLoop w x z = z + Spec.trailingZeros (w * x.length) (U w x)
+  | [], _, z => by simp [UI.tzLoop, Spec.trailingZeros]
+  | d :: ds, hx, z => by
+    rw [Digits_cons] at hx
+    simp only [UI.tzLoop, List.length_cons, U_cons]
+    rw [Nat.mul_add, Nat.mul_one, Nat.add_comm (w * ds.length) w, B_eq_two_pow,
+      trailingZeros_add w _ d _ hx.1, Prim.trailingZeros, tzLoop_eq]
+    by_cases h0 : d = 0
+    · subst h0
+      simp only [bne_self_eq_false, Bool.false_eq_true, if_false, if_true]
+      rw [tzLoopU_spec ds hx.2, trailingZeros_zero]; omega
+    · have : (d != 0) = true := by simp [h0]
+      rw [if_pos this, if_neg h0]
+
+/-- C06: `trailing_zeros` of the pattern (`BITS` for zero). -/
+theorem trailingZeros_spec {w n : Nat} {x : List Nat} (hx : WF w n x) :
+    UI.trailingZeros w x = Spec.trailingZeros (w * n) (U w x) := by
+  unfold UI.trailingZeros; rw [tzLoopU_spec x hx.2, hx.1]; omega
+
+/-- meaning of `Spec.trailingZeros`: all lower bits are clear, and (unless it hit the cap `W`) the
+    bit at that position is set -/
+theorem trailingZeros_char : ∀ (W v : Nat),
+    Spec.trailingZeros W v ≤ W ∧ (∀ i, i < Spec.trailingZeros W v → v.testBit i = false) ∧
+    (Spec.trailingZeros W v < W → v.testBit (Spec.trailingZeros W v) = true)
+  | 0, v => by simp [Spec.trailingZeros]
+  | W + 1, v => by
+    obtain ⟨h1, h2, h3⟩ := trailingZeros_char W (v / 2)
+    simp only [Spec.trailingZeros]
+    by_cases hodd : v % 2 = 1
+    · simp [hodd, Nat.testBit_zero]
+    · simp only [hodd, if_false]
+      refine ⟨by omega, ?_, ?_⟩
+      · intro i hi
+        cases i with
+        | zero => simp [Nat.testBit_zero, hodd]
+        | succ i => rw [Nat.testBit_succ]; exact h2 i (by omega)
+      · intro h
+        rw [Nat.add_comm, Nat.testBit_succ]; exact h3 (by omega)
+
+end Bnum.Bits
